@@ -446,6 +446,13 @@ pub fn shrink_candidates(case: &Case) -> Vec<Case> {
     }
 }
 
+pub fn pin_schedule(case: &Case, clause: &str) -> Case {
+    match case {
+        Case::P(c) => Case::P(crate::psim::pin_schedule(c, clause)),
+        other => other.clone(),
+    }
+}
+
 /// Greedy delta debugging: keep a smaller case while the same (property, clause) still fails.
 pub fn minimise(case: &Case, prop: &str, clause: &str, budget: usize) -> (Case, usize) {
     let mut cur = case.clone();
